@@ -23,6 +23,7 @@ REQUIRED = {
               "class/partial_fill_then_cancel": 10, "class/fill_in_last_live_step": 10,
               "class/cancel_after_expired": 5, "class/cancel_after_filled": 5, "class/cancel_after_cancelled": 5,
               "class/refused_resubmission": 3, "class/refused_spoofed_order": 3,
+              "class/refused_spoofed_order_of_a_high_frequency_agent": 2,
               "class/refused_foreign_market": 3, "class/refused_constructor_misuse": 10, "book_comparisons": 5000,
               "class/expiry_of_long_lived_order": 20},
     "thorough": {"acceptances": 200000, "fills": 40000, "expiries": 10000, "class/cancel_of_resting": 4000,
@@ -30,6 +31,7 @@ REQUIRED = {
                  "class/cancel_after_expired": 100, "class/cancel_after_filled": 100,
                  "class/cancel_after_cancelled": 100, "class/refused_resubmission": 50,
                  "class/refused_spoofed_order": 50, "class/refused_foreign_market": 50,
+                 "class/refused_spoofed_order_of_a_high_frequency_agent": 20,
                  "class/refused_constructor_misuse": 200, "book_comparisons": 200000,
                  "class/expiry_of_long_lived_order": 600},
 }
@@ -42,7 +44,9 @@ def budget(tier):
 def gen_case(rng, tier, idx):
     r = idx % 20
     if r in (17, 18):
-        return gen_accounting_case(rng, tier, hostile=rng.choice(["resubmit", "spoof", "foreign_cancel"]))
+        # every hostile action by a normal agent (r == 17) and by a high-frequency agent (r == 18), in turn
+        return gen_accounting_case(rng, tier, hostile=["resubmit", "spoof", "foreign_cancel"][(idx // 20) % 3],
+                                   hft=rng.choice([1, 2, 3]) if r == 18 else None, hostile_hft=(r == 18))
     if r == 19:
         return {"drive": "misuse", "seed": rng.randrange(1 << 30)}
     if r == 10:
